@@ -73,6 +73,47 @@ class Check(PropertyCheck):
             meta.update({"kind": "chart" if kind != 2 else "animate", "count": len(hist)})
             yield Scenario(lines, meta)
 
+    @staticmethod
+    def plotter_reuse(impl, hist):
+        """One plotter object (what a GanttChartCreator keeps) draws a frame of an animation (time axis fixed at the final
+        makespan) and then a static chart of a shorter schedule: that chart's axis ends at ITS makespan, its bars are its
+        operations."""
+        import warnings
+        import jsl
+        import matplotlib.pyplot as plt
+        from impl_ext import read_chart
+        from job_shop_lib.visualization import get_partial_gantt_chart_plotter
+        res = []
+        if len(hist) < 2:
+            return res
+        d = jsl.Dispatcher(impl.instance)
+        for j, p, m in hist:
+            d.dispatch(impl.instance.jobs[j][p], m)
+        final_mk = d.schedule.makespan()
+        d.reset()
+        for j, p, m in hist[:max(1, len(hist) // 2)]:
+            d.dispatch(impl.instance.jobs[j][p], m)
+        plotter = get_partial_gantt_chart_plotter()
+        with warnings.catch_warnings():
+            warnings.simplefilter("ignore")
+            fig = plotter(d.schedule, makespan=final_mk + 3)
+            ax = fig.axes[0]
+            _, _, _, lim1 = read_chart(ax)
+            plt.close(fig)
+            fig = plotter(d.schedule)
+            bars, _, _, lim2 = read_chart(fig.axes[0])
+            plt.close(fig)
+        want = sorted(f"{1 + 10 * so.machine_id}:{so.start_time}:{so.end_time - so.start_time}:{so.job_id}"
+                      for ms in d.schedule.schedule for so in ms)
+        if int(lim1[1] + 0.5) != final_mk + 3:
+            res.append(("xlim", f"a frame drawn with the requested limit {final_mk + 3} ends at {lim1[1]}"))
+        if int(lim2[1] + 0.5) != d.schedule.makespan():
+            res.append(("xlim", f"a static chart drawn by a plotter that drew an animation frame before: time axis ends at "
+                        f"{lim2[1]}, the schedule's makespan is {d.schedule.makespan()}"))
+        if sorted(bars) != want:
+            res.append(("bars", f"static chart after an animation frame: bars {sorted(bars)} differ from {want}"))
+        return res
+
     def nontrivial(self, scenario, outs):
         return scenario.meta["count"] >= (100 if scenario.meta["kind"] == "frames" else 1)
 
@@ -138,4 +179,5 @@ class Check(PropertyCheck):
                 if got != sorted(placed):
                     res.append(("frame-content", f"frame {k} shows {got}, the first {k} dispatched operations are {sorted(placed)}"))
                     break
+            res += self.plotter_reuse(impl, hist)
         return res
